@@ -3,7 +3,9 @@
 use crate::ast::{self, CtxK};
 use crate::common::{Out, Rng};
 use crate::msops::{self, Assets};
-use crate::desc::{self, DAssets, Wrap};
+use crate::desc::{self, DAssets, TxSat, Wrap};
+use miniscript::bitcoin::{PublicKey, ScriptBuf};
+use miniscript::{Descriptor, Satisfier};
 use crate::with_ctx;
 use miniscript::miniscript::types::Base;
 
@@ -70,6 +72,19 @@ pub fn run(out: &mut Out, thorough: bool, seed: u64) {
                 }
             }
         }
+        // wrapper / cast towers in positions where the tower itself is EXECUTED DISSATISFIED
+        // (or_d / or_b / andor / thresh left operand), with assets forcing both outcomes
+        for node in tower_dissat_corpus(ctx) {
+            if !thorough && !matches!(ctx, CtxK::Segwitv0 | CtxK::Tap) { break; }
+            n_frag += 1;
+            node.count_frags(out);
+            out.count("tower-dissat corpus");
+            for a in forced_assets(&node) {
+                for mall in [false, true] {
+                    with_ctx!(ctx, emit_sat(out, ctx, &node, &a, mall));
+                }
+            }
+        }
         // random larger scripts
         let n_rand = if thorough { 400 } else { 60 };
         for _ in 0..n_rand {
@@ -92,23 +107,39 @@ pub fn run(out: &mut Out, thorough: bool, seed: u64) {
         let frags = ast::enumerate(ctx, &atoms, if thorough { 4 } else { 3 }, if thorough { 60 } else { 14 }, &mut rng);
         for t in frags.iter().filter(|t| t.base == Base::B) {
             for w in &wraps {
-                if let Some(d) = desc::build_desc(*w, &t.node, 0) {
+                let mk = || desc::build_desc(*w, &t.node, 0);
+                if mk().is_some() {
                     n_desc += 1;
                     for a in dassets_subsets(&[&t.node], if thorough { 16 } else { 5 }) {
-                        for mall in [false, true] { desc::satisfy_and_judge(out, &d, &a, mall); }
+                        for mall in [false, true] { routes_and_judge(out, &mk, &a, mall); }
                     }
                 }
             }
         }
     }
     for (ctx, wraps) in [(CtxK::Segwitv0, vec![Wrap::Wsh, Wrap::ShWsh]), (CtxK::Legacy, vec![Wrap::Sh]), (CtxK::Bare, vec![Wrap::Bare])] {
-        for node in ast::dimension_corpus(ctx) {
-            if node.clone().has_rawpkh() { continue; }   // TxSat has no raw-pkh lookups
+        // the tower-dissat corpus through one wrapper per context with the forcing asset sets
+        for node in tower_dissat_corpus(ctx) {
+            if ctx == CtxK::Bare && !thorough { break; }
+            let w = wraps[0];
+            let mk = || desc::build_desc(w, &node, 0);
+            if mk().is_some() {
+                n_desc += 1;
+                out.count("descriptor routes: tower-dissat corpus");
+                for a in designated_dassets(&[&node], 3) {
+                    for mall in [false, true] { routes_and_judge(out, &mk, &a, mall); }
+                }
+            }
+        }
+        let corpus = ast::dimension_corpus(ctx);
+        for node in corpus {
             for w in &wraps {
-                if let Some(d) = desc::build_desc(*w, &node, 0) {
+                let mk = || desc::build_desc(*w, &node, 0);
+                if mk().is_some() {
                     n_desc += 1;
-                    for a in dassets_subsets(&[&node], if thorough { 16 } else { 8 }) {
-                        for mall in [false, true] { desc::satisfy_and_judge(out, &d, &a, mall); }
+                    out.count("descriptor routes: designated corpus");
+                    for a in designated_dassets(&[&node], if thorough { 16 } else { 8 }) {
+                        for mall in [false, true] { routes_and_judge(out, &mk, &a, mall); }
                     }
                 }
             }
@@ -117,12 +148,13 @@ pub fn run(out: &mut Out, thorough: bool, seed: u64) {
     for w in [Wrap::Pkh, Wrap::Wpkh, Wrap::ShWpkh] {
         // both parities, and the uncompressed encodings (legal in pkh only: the others refuse)
         for key in [0u32, 1, 8, 9, 100, 101, 103] {
-            if let Some(d) = desc::build_desc(w, &ast::Node::True, key) {
+            let mk = || desc::build_desc(w, &ast::Node::True, key);
+            if mk().is_some() {
                 n_desc += 1;
                 for has in [true, false] {
                     let mut a = DAssets::default();
                     if has { a.keys.insert(key % 100); }
-                    for mall in [false, true] { desc::satisfy_and_judge(out, &d, &a, mall); }
+                    for mall in [false, true] { routes_and_judge(out, &mk, &a, mall); }
                 }
             }
         }
@@ -133,24 +165,37 @@ pub fn run(out: &mut Out, thorough: bool, seed: u64) {
         let atoms = ast::default_atoms(ctx, !thorough);
         let frags: Vec<ast::Typed> = ast::enumerate(ctx, &atoms, if thorough { 3 } else { 2 }, if thorough { 30 } else { 10 }, &mut rng)
             .into_iter().filter(|t| t.base == Base::B).collect();
-        for ik in [3u32, 0] { if let Some(d) = desc::build_tr(ik, &[]) {
+        for ik in [3u32, 0] { let mk = || desc::build_tr(ik, &[]); if mk().is_some() {
             for tk in [true, false] {
                 let mut a = DAssets::default(); a.tapkey = tk;
-                for sa in [false, true] { a.schnorr_all = sa; for mall in [false, true] { desc::satisfy_and_judge(out, &d, &a, mall); } }
+                for sa in [false, true] { a.schnorr_all = sa; for mall in [false, true] { routes_and_judge(out, &mk, &a, mall); } }
             }
         } }
         // tr leaves from the designated corpus too (full keys of both parities in the leaves)
         {
-            let corpus: Vec<ast::Node> = ast::dimension_corpus(ctx).into_iter().filter(|n| !n.has_rawpkh()).collect();
+            let corpus: Vec<ast::Node> = ast::dimension_corpus(ctx);
+            for n in tower_dissat_corpus(ctx) {
+                let leaves = vec![n.clone()];
+                let mk = || desc::build_tr_shaped(3, &leaves, 0);
+                if mk().is_some() {
+                    n_desc += 1;
+                    out.count("descriptor routes: tower-dissat corpus in tr");
+                    for a in designated_dassets(&[&n], 3) { for mall in [false, true] { routes_and_judge(out, &mk, &a, mall); } }
+                }
+            }
+            let filler = ast::Node::Check(Box::new(ast::Node::PkK(205)));
             for (j, n) in corpus.iter().enumerate() {
-                let other = corpus[(j * 7 + 3) % corpus.len()].clone();
-                for (ik, leaves, shape) in [(3u32, vec![n.clone()], 0u8), (0, vec![other.clone(), n.clone()], 1), (8, vec![n.clone(), other.clone(), ast::Node::Check(Box::new(ast::Node::PkK(205)))], 2)] {
-                    if let Some(d) = desc::build_tr_shaped(ik, &leaves, shape) {
+                // the designated leaf at depth 0 (only leaf), 1 (right comb of two) and 2 (balanced
+                // tree of three, last position); the other leaves need key 205, which the assets never hold,
+                // so the designated leaf is the one that gets spent
+                for (ik, leaves, shape) in [(3u32, vec![n.clone()], 0u8), (0, vec![filler.clone(), n.clone()], 1), (8, vec![filler.clone(), filler.clone(), n.clone()], 2)] {
+                    let mk = || desc::build_tr_shaped(ik, &leaves, shape);
+                    if mk().is_some() {
                         n_desc += 1;
-                        let refs: Vec<&ast::Node> = leaves.iter().collect();
-                        for mut a in dassets_subsets(&refs, if thorough { 8 } else { 3 }) {
+                        out.count(&format!("descriptor routes: designated corpus in tr at depth {}", shape));
+                        for mut a in designated_dassets(&[n], if thorough { 8 } else { 3 }) {
                             a.schnorr_all = j % 2 == 0;
-                            for mall in [false, true] { desc::satisfy_and_judge(out, &d, &a, mall); }
+                            for mall in [false, true] { routes_and_judge(out, &mk, &a, mall); }
                         }
                     }
                 }
@@ -163,20 +208,24 @@ pub fn run(out: &mut Out, thorough: bool, seed: u64) {
             let nl = 1 + rng.below(if i % 5 == 0 { 6 } else { 4 });
             let leaves: Vec<ast::Node> = (0..nl).map(|_| frags[rng.below(frags.len())].node.clone()).collect();
             let ik = [3u32, 0, 9, 8][i % 4];
-            if let Some(d) = desc::build_tr_shaped(ik, &leaves, (i % 3) as u8) {
+            let mk = || desc::build_tr_shaped(ik, &leaves, (i % 3) as u8);
+            if mk().is_some() {
                 n_desc += 1;
                 let refs: Vec<&ast::Node> = leaves.iter().collect();
                 for mut a in dassets_subsets(&refs, if thorough { 8 } else { 4 }) {
                     a.tapkey = i % 7 == 0;
                     a.schnorr_all = i % 3 == 0;
-                    for mall in [false, true] { desc::satisfy_and_judge(out, &d, &a, mall); }
+                    for mall in [false, true] { routes_and_judge(out, &mk, &a, mall); }
                 }
             }
         }
     }
+    n_desc += refused_today_corpus(out);
+    PSBT_NONE.with(|c| for (i, x) in c.borrow().iter().enumerate() { out.note(&format!("observation psbt-route-none sample {}", i), x.clone()); });
+    raw_preimage_channel(out);
     out.note("descriptors", n_desc.to_string());
     out.note("distinct_nontrivial", n_frag.to_string());
-    out.note("domain", "all B-typed fragments to depth 2 (thinned) over small atoms in 4 contexts x asset subsets x {nonmall, mall}; random larger scripts".into());
+    out.note("domain", "miniscript level: all B-typed fragments to depth 2 (thinned) over small atoms in 4 contexts, the designated corpus (ast::dimension_corpus incl. wrapper towers and raw key hashes) and the tower-dissat corpus (towers of wrappers and t:/l:/u: casts as the EXECUTED-DISSATISFIED operand of or_d/or_b/andor/thresh, with assets forcing the tower satisfied and dissatisfied) x asset subsets x {nonmall, mall}; random larger scripts. Descriptor level: every designated script x {wsh, sh(wsh), sh, bare, tr leaf at depth 0/1/2} and pkh/wpkh/sh(wpkh)/tr key path x ROUTES {Descriptor::get_satisfaction{,_mall} on a used, a fresh, an after-failed-call and a cloned object; the inner type's own Bare/Pkh/Wpkh/Wsh/Sh/Tr::get_satisfaction{,_mall}; Descriptor::satisfy(&mut TxIn); into_plan / into_plan_mall -> Plan::satisfy; stock tuple satisfier; PSBT update_input_with_descriptor + finalize_mut / finalize_mall_mut}: every distinct (scriptSig, witness) any route returns is judged by J spend; refused-today corpus (each refused by exactly one rule; judged if ever accepted; the accepted +/-1 neighbours are judged); script-false / number-like 32-byte preimages through sh and bare scriptSigs".into());
 }
 
 fn emit_sat<Pk: msops::HKey, Ctx: miniscript::ScriptContext>(out: &mut Out, ctx: CtxK, node: &ast::Node, a: &Assets, mall: bool)
@@ -199,4 +248,408 @@ fn dassets_subsets(nodes: &[&ast::Node], cap: usize) -> Vec<DAssets> {
     v.dedup();
     v.truncate(cap);
     v
+}
+
+
+/* ------------------------------------------------------------------ routes (R1, R4) */
+
+type Spend = (Vec<Vec<u8>>, ScriptBuf);
+
+thread_local! { static PSBT_NONE: std::cell::RefCell<Vec<String>> = std::cell::RefCell::new(vec![]); }
+
+fn guard<T>(out: &mut Out, route: &str, info: &str, f: impl FnOnce() -> T) -> Option<T> {
+    match std::panic::catch_unwind(std::panic::AssertUnwindSafe(f)) {
+        Ok(v) => Some(v),
+        Err(_) => { out.line(&format!("J nopanic {} {} PANIC", route, info), "ok"); None }
+    }
+}
+
+fn direct(d: &Descriptor<PublicKey>, sat: &TxSat, mall: bool) -> Option<Spend> {
+    if mall { d.get_satisfaction_mall(sat).ok() } else { d.get_satisfaction(sat).ok() }
+}
+
+/// the inner type's own method (what `Descriptor::get_satisfaction*` dispatches to)
+fn inner_direct(d: &Descriptor<PublicKey>, sat: &TxSat, mall: bool) -> Option<Spend> {
+    match (d, mall) {
+        (Descriptor::Bare(x), false) => x.get_satisfaction(sat).ok(),
+        (Descriptor::Bare(x), true) => x.get_satisfaction_mall(sat).ok(),
+        (Descriptor::Pkh(x), false) => x.get_satisfaction(sat).ok(),
+        (Descriptor::Pkh(x), true) => x.get_satisfaction_mall(sat).ok(),
+        (Descriptor::Wpkh(x), false) => x.get_satisfaction(sat).ok(),
+        (Descriptor::Wpkh(x), true) => x.get_satisfaction_mall(sat).ok(),
+        (Descriptor::Wsh(x), false) => x.get_satisfaction(sat).ok(),
+        (Descriptor::Wsh(x), true) => x.get_satisfaction_mall(sat).ok(),
+        (Descriptor::Sh(x), false) => x.get_satisfaction(sat).ok(),
+        (Descriptor::Sh(x), true) => x.get_satisfaction_mall(sat).ok(),
+        (Descriptor::Tr(x), false) => x.get_satisfaction(sat).ok(),
+        (Descriptor::Tr(x), true) => x.get_satisfaction_mall(sat).ok(),
+    }
+}
+
+/// Every public route that returns a (witness, scriptSig) for the descriptor built by `mk`
+/// (a FRESH object per call), with the same assets and mode; every DISTINCT result of any
+/// route is judged by `J spend`.  Returns whether the reference route produced a spend.
+pub fn routes_and_judge(out: &mut Out, mk: &dyn Fn() -> Option<Descriptor<PublicKey>>, assets: &DAssets, mall: bool) -> bool {
+    let desc = match mk() { Some(d) => d, None => return false };
+    let mode = if mall { "mall" } else { "nonmall" };
+    let info = format!("{} {} {}", desc, mode, assets.wire());
+    // one transaction for every route (its input spends output 1 of a real previous transaction,
+    // which the PSBT route needs); `tx_sat_psbt` calls script_pubkey() / spend_info(): from here
+    // on `desc` is a USED object
+    let (sat, prev) = desc::tx_sat_psbt(&desc, assets);
+    let mut results: Vec<(&'static str, Option<Spend>)> = vec![];
+    // reference: Descriptor::get_satisfaction{,_mall} on the used object
+    let base = match guard(out, "get_satisfaction", &info, || direct(&desc, &sat, mall)) { Some(r) => r, None => return false };
+    results.push(("get_satisfaction[used]", base.clone()));
+    // R4: the same call as the FIRST thing that happens to a fresh object ...
+    if let Some(f) = mk() {
+        if let Some(r) = guard(out, "get_satisfaction[fresh]", &info, || direct(&f, &sat, mall)) { results.push(("get_satisfaction[fresh]", r)); }
+    }
+    // ... after a call that failed (no assets) on a fresh object, and on a clone of the used one
+    if let Some(f) = mk() {
+        let (empty, _) = desc::tx_sat_psbt(&desc, &DAssets::default());
+        let _ = guard(out, "get_satisfaction[no-assets]", &info, || direct(&f, &empty, mall));
+        if let Some(r) = guard(out, "get_satisfaction[after-failed-call]", &info, || direct(&f, &sat, mall)) { results.push(("get_satisfaction[after-failed-call]", r)); }
+    }
+    { let c = desc.clone(); if let Some(r) = guard(out, "get_satisfaction[clone]", &info, || direct(&c, &sat, mall)) { results.push(("get_satisfaction[clone]", r)); } }
+    // the inner type's own method, on a fresh object
+    if let Some(f) = mk() {
+        if let Some(r) = guard(out, "inner-get_satisfaction", &info, || inner_direct(&f, &sat, mall)) { results.push(("inner-type get_satisfaction", r)); }
+    }
+    // Descriptor::satisfy writes into a TxIn (non-malleable mode only)
+    if !mall {
+        let mut txin = sat.tx.input[0].clone();
+        if let Some(ok) = guard(out, "Descriptor::satisfy", &info, || desc.satisfy(&mut txin, &sat).is_ok()) {
+            results.push(("Descriptor::satisfy", if ok { Some((txin.witness.to_vec(), txin.script_sig.clone())) } else { None }));
+        }
+    }
+    // the plan route: into_plan{,_mall} then Plan::satisfy with the same satisfier
+    {
+        let d2 = desc.clone();
+        if let Some(r) = guard(out, "into_plan->Plan::satisfy", &info, || {
+            let plan = if mall { d2.into_plan_mall(&sat) } else { d2.into_plan(&sat) };
+            match plan { Ok(p) => p.satisfy(&sat).ok(), Err(_) => None }
+        }) { results.push(("into_plan->Plan::satisfy", r)); }
+    }
+    // the library's stock Satisfier impls: (key -> signature map, nSequence, nLockTime) tuple
+    if !matches!(desc, Descriptor::Tr(_)) {
+        let mut m: std::collections::HashMap<PublicKey, miniscript::bitcoin::ecdsa::Signature> = std::collections::HashMap::new();
+        for (id, sig) in &sat.ecdsa {
+            for kid in [*id, *id + 100] {
+                let pk = ast::full_key(kid);
+                sat.issued.borrow_mut().push((pk.to_bytes(), sig.to_vec()));
+                m.insert(pk, *sig);
+            }
+        }
+        let stock = (&m, sat.tx.input[0].sequence, sat.tx.lock_time);
+        if let Some(r) = guard(out, "get_satisfaction(stock satisfier)", &info, || {
+            if mall { desc.get_satisfaction_mall(&stock).ok() } else { desc.get_satisfaction(&stock).ok() }
+        }) {
+            // the stock satisfier holds no preimages: a `None` here says nothing
+            if r.is_some() { results.push(("stock tuple satisfier", r)); }
+        }
+    }
+    // the PSBT route: update_input_with_descriptor + signature / preimage fields + finalize
+    if let Some(f) = mk() {
+        if let Some(r) = guard(out, "psbt-finalize", &info, || desc::psbt_finalize_route(&f, &sat, &prev, mall)) {
+            if r.is_none() && base.is_some() { PSBT_NONE.with(|c| { let mut c = c.borrow_mut(); let d = desc.to_string(); if c.len() < 6 && !c.iter().any(|x| x.starts_with(&d)) { c.push(info.clone()); } }); }
+            results.push(("psbt finalize", r));
+        }
+    }
+    // judge every distinct spend once; record how the routes relate to the reference
+    let mut judged: Vec<Spend> = vec![];
+    for (name, r) in &results {
+        match (r, &base) {
+            (Some(x), Some(b)) if x == b => out.count(&format!("route {}: same as reference", name)),
+            (Some(_), Some(_)) => out.count(&format!("route {}: differs from reference (judged)", name)),
+            (Some(_), None) => out.count(&format!("route {}: spend although reference has none (judged)", name)),
+            (None, Some(_)) => out.count(&format!("observation: route {} has no spend although reference has one", name)),
+            (None, None) => out.count(&format!("route {}: none", name)),
+        }
+        if let Some(x) = r {
+            if !judged.contains(x) {
+                judged.push(x.clone());
+                let via = if Some(x) == base.as_ref() { info.clone() } else { format!("{} via={}", info, name.replace(' ', "_")) };
+                desc::judge_spend(out, &via, &sat, &x.1, &x.0);
+            }
+        }
+    }
+    match &base { Some(_) => out.count(&format!("desc sat: {:?}", desc.desc_type())), None => out.count("desc sat: none") }
+    base.is_some()
+}
+
+/* ------------------------------------------------------------------ assets that force outcomes (R5) */
+
+fn raw_ids(nodes: &[&ast::Node]) -> Vec<u32> { let mut v = vec![]; for n in nodes { n.rawpkhs(&mut v); } v.sort(); v.dedup(); v }
+
+/// `dassets_subsets` plus: raw key hashes known; the two forcing sets "everything except the
+/// guard key 7" (the tower must be satisfied) and "only the guard keys 7 / 8" (it must be
+/// dissatisfied) FIRST, so that the quick-tier cap cannot cut them
+fn designated_dassets(nodes: &[&ast::Node], cap: usize) -> Vec<DAssets> {
+    let raws = raw_ids(nodes);
+    let mut full = DAssets::full(nodes);
+    for h in &raws { full.rawpk.insert(*h); full.keys.insert(*h % 100); }
+    let mut v = vec![full.clone()];
+    if full.keys.contains(&7) {
+        let mut a = full.clone(); a.keys.remove(&7); v.push(a);
+        let mut b = DAssets::default(); b.keys.insert(7); if full.keys.contains(&8) { b.keys.insert(8); } b.rawpk = full.rawpk.clone(); v.push(b);
+    }
+    if !raws.is_empty() {
+        // key behind the hash unknown; key known but no signature for it
+        let mut a = full.clone(); a.rawpk.clear(); v.push(a);
+        let mut b = full.clone(); for h in &raws { b.keys.remove(&(*h % 100)); } v.push(b);
+    }
+    for a in dassets_subsets(nodes, cap) {
+        let mut a = a; a.rawpk = full.rawpk.clone();
+        if !v.contains(&a) { v.push(a); }
+    }
+    v.truncate(cap);
+    v
+}
+
+/// miniscript-level forcing sets for a tower-dissat script: everything; everything but the
+/// guard key; only the guard keys
+fn forced_assets(node: &ast::Node) -> Vec<Assets> {
+    let full = Assets::full(node);
+    let guard = |k: &u32| *k % 100 == 7 || *k % 100 == 8;
+    let mut no7 = full.clone();
+    no7.ecdsa.retain(|k| *k % 100 != 7); no7.schnorr.retain(|k, _| *k % 100 != 7);
+    let mut only = Assets::default();
+    only.ecdsa = full.ecdsa.iter().cloned().filter(|k| guard(k)).collect();
+    only.schnorr = full.schnorr.iter().filter(|(k, _)| guard(k)).map(|(k, v)| (*k, *v)).collect();
+    only.rawpk = full.rawpk.clone();
+    let mut v = vec![full, no7, only];
+    v.dedup();
+    v
+}
+
+/// Towers of one or two wrappers / casts (`a: s: c: d: v: j: n:` and `t:X = and_v(X,1)`,
+/// `l:X = or_i(0,X)`, `u:X = or_i(X,0)`) over every atom kind, embedded where the tower is
+/// EXECUTED and DISSATISFIED when the guard key 7 signs: left operand of or_d / or_b / andor /
+/// thresh (B towers), right operand of or_b / thresh (W towers).  `ast::wrapper_towers` embeds
+/// B towers only as `T`, `and_v(v:pk,T)` and `or_d(pk,T)`, where a B tower is never executed
+/// dissatisfied.
+pub fn tower_dissat_corpus(ctx: CtxK) -> Vec<ast::Node> {
+    use ast::Node::*;
+    use ast::HK;
+    let tap = ctx == CtxK::Tap;
+    let b = if tap { 200 } else { 0 };
+    let bx = |n: ast::Node| Box::new(n);
+    let pk = |i: u32| Check(bx(PkK(b + i)));
+    let atoms: Vec<ast::Node> = vec![
+        PkK(b), PkH(b), pk(0), Check(bx(PkH(b))),
+        if tap { MultiA(1, vec![b, b + 1]) } else { Multi(1, vec![b, b + 1]) },
+        Hash(HK::Sha256, 0), Older(10), After(100), True, False,
+        Thresh(1, vec![pk(0), Swap(bx(pk(1)))]),
+        AndV(bx(Verify(bx(pk(0)))), bx(pk(1))),
+    ];
+    let wrap = |w: u8, x: ast::Node| -> ast::Node {
+        match w {
+            0 => Alt(bx(x)), 1 => Swap(bx(x)), 2 => Check(bx(x)), 3 => DupIf(bx(x)), 4 => Verify(bx(x)),
+            5 => NonZero(bx(x)), 6 => ZeroNotEqual(bx(x)),
+            7 => AndV(bx(x), bx(True)),            // t:
+            8 => OrI(bx(False), bx(x)),            // l:
+            _ => OrI(bx(x), bx(False)),            // u:
+        }
+    };
+    let ok = |n: &ast::Node| -> Option<Base> { with_ctx!(ctx, base_of(n)) };
+    let mut out: Vec<ast::Node> = vec![];
+    let mut seen = std::collections::BTreeSet::new();
+    let mut rot = 0usize;
+    for a in &atoms {
+        for w1 in 0..10u8 {
+            let x1 = wrap(w1, a.clone());
+            if ok(&x1).is_none() { continue; }
+            let mut tops = vec![x1.clone()];
+            for w2 in 0..10u8 { let x2 = wrap(w2, x1.clone()); if ok(&x2).is_some() { tops.push(x2); } }
+            for t in tops {
+                let emb: Vec<ast::Node> = match ok(&t) {
+                    Some(Base::B) => vec![
+                        OrD(bx(t.clone()), bx(pk(7))),
+                        OrB(bx(t.clone()), bx(Alt(bx(pk(7))))),
+                        AndOr(bx(t.clone()), bx(pk(8)), bx(pk(7))),
+                        Thresh(1, vec![t.clone(), Swap(bx(pk(7)))]),
+                        OrC(bx(t.clone()), bx(Verify(bx(pk(7))))),
+                    ],
+                    Some(Base::W) => vec![OrB(bx(pk(7)), bx(t.clone())), Thresh(1, vec![pk(7), t.clone()]), Thresh(2, vec![pk(7), t.clone(), Swap(bx(pk(8)))])],
+                    _ => vec![],
+                };
+                // one embedding per tower, rotating through the embeddings that type-check
+                let cands: Vec<ast::Node> = emb.into_iter()
+                    .map(|e| if ok(&e) == Some(Base::V) { AndV(bx(e), bx(True)) } else { e })   // or_c yields V: close it with `1`
+                    .filter(|e| ok(e) == Some(Base::B)).collect();
+                if !cands.is_empty() {
+                    let e = cands[rot % cands.len()].clone();
+                    rot += 1;
+                    if seen.insert(e.wire()) { out.push(e); }
+                }
+            }
+        }
+    }
+    out
+}
+
+fn base_of<Pk: ast::KeyOf, Ctx: miniscript::ScriptContext>(n: &ast::Node) -> Option<Base> {
+    ast::to_ms::<Pk, Ctx>(n).ok().map(|m| m.ty.corr.base)
+}
+
+/* ------------------------------------------------------------------ refused today (R2) */
+
+/// Descriptors that the constructors refuse TODAY for exactly one reason each, next to their
+/// accepted neighbours.  Whatever is accepted goes through all routes and `J spend` with full
+/// assets: a rule that starts letting one of the refused ones through produces judged spends.
+fn refused_today_corpus(out: &mut Out) -> u64 {
+    use ast::Node::*;
+    let bx = |n: ast::Node| Box::new(n);
+    let pk = |i: u32| Check(bx(PkK(i)));
+    let v = |n: ast::Node| Verify(bx(n));
+    // and_v(v:pk(0),and_v(v:pk(1), ... pk(m-1))): m CHECKSIG(VERIFY) opcodes, 35 bytes each
+    let chain = |m: u32| -> ast::Node {
+        let mut n = pk((m - 1) % 10);
+        for i in (0..m - 1).rev() { n = AndV(bx(v(pk(i % 10))), bx(n)); }
+        n
+    };
+    // and_v(v:after(1), ... and_v(v:after(1), tail)): `1 CLTV VERIFY` = 2 counted opcodes and no
+    // witness item per link
+    let ops = |t: u32, tail: ast::Node| -> ast::Node {
+        let mut n = tail;
+        for _ in 0..t { n = AndV(bx(v(After(1))), bx(n)); }
+        n
+    };
+    let cases: Vec<(&str, bool, Wrap, ast::Node)> = vec![
+        // (class, expected accepted today, wrapper, script)
+        ("wsh: 201 opcodes (limit)", true, Wrap::Wsh, ops(100, pk(0))),
+        ("wsh: 202 opcodes (limit+1)", false, Wrap::Wsh, ops(100, ZeroNotEqual(bx(pk(0))))),
+        ("sh-wsh: 201 opcodes (limit)", true, Wrap::ShWsh, ops(100, pk(0))),
+        ("sh-wsh: 202 opcodes (limit+1)", false, Wrap::ShWsh, ops(100, ZeroNotEqual(bx(pk(0))))),
+        ("sh: 201 opcodes (limit)", true, Wrap::Sh, ops(100, pk(0))),
+        ("sh: 202 opcodes (limit+1)", false, Wrap::Sh, ops(100, ZeroNotEqual(bx(pk(0))))),
+        ("bare: 202 opcodes", false, Wrap::Bare, ops(100, ZeroNotEqual(bx(pk(0))))),
+        ("sh: redeem script 490 bytes (<= 520)", true, Wrap::Sh, chain(14)),
+        ("sh: redeem script 525 bytes (> 520)", false, Wrap::Sh, chain(15)),
+        ("wsh: 100 stack items + script (Core's P2WSH standardness limit)", true, Wrap::Wsh, chain(100)),
+        // Wsh::new enforces the consensus limits only; the 100-item limit is `sanity_check` / policy.
+        // verifySpend does not model that policy limit either: recorded as an observation
+        ("wsh: 101 stack items + script (over the standardness limit, accepted by the constructor)", true, Wrap::Wsh, chain(101)),
+        ("wsh: uncompressed key", false, Wrap::Wsh, pk(100)),
+        ("sh-wsh: uncompressed key", false, Wrap::ShWsh, AndV(bx(v(pk(0))), bx(pk(101)))),
+        ("wsh: uncompressed key in pk_h", false, Wrap::Wsh, Check(bx(PkH(100)))),
+        ("wsh: uncompressed key in multi", false, Wrap::Wsh, Multi(1, vec![0, 100])),
+        ("wsh: multi_a outside tapscript", false, Wrap::Wsh, MultiA(1, vec![0, 1])),
+        ("sh: multi_a outside tapscript", false, Wrap::Sh, MultiA(1, vec![0, 1])),
+        ("wsh: multi with 20 keys (limit)", true, Wrap::Wsh, Multi(2, (0..20).map(|i| i % 10).collect())),
+        ("wsh: multi with 21 keys (limit+1)", false, Wrap::Wsh, Multi(2, (0..21).map(|i| i % 10).collect())),
+        ("wsh: top level K", false, Wrap::Wsh, PkK(0)),
+        ("wsh: top level V", false, Wrap::Wsh, v(pk(0))),
+        ("wsh: top level W", false, Wrap::Wsh, Alt(bx(pk(0)))),
+        ("sh: top level V", false, Wrap::Sh, v(pk(0))),
+        ("bare: top level K", false, Wrap::Bare, PkK(0)),
+        ("wsh: after(0)", false, Wrap::Wsh, AndV(bx(v(pk(0))), bx(After(0)))),
+        ("wsh: after(2^31)", false, Wrap::Wsh, AndV(bx(v(pk(0))), bx(After(0x8000_0000)))),
+        ("wsh: after(2^31-1) (limit)", true, Wrap::Wsh, AndV(bx(v(pk(0))), bx(After(0x7fff_ffff)))),
+        ("wsh: older(0)", false, Wrap::Wsh, AndV(bx(v(pk(0))), bx(Older(0)))),
+        ("wsh: older(2^31)", false, Wrap::Wsh, AndV(bx(v(pk(0))), bx(Older(0x8000_0000)))),
+        ("wsh: thresh k=0", false, Wrap::Wsh, Thresh(0, vec![pk(0), Swap(bx(pk(1)))])),
+        ("wsh: thresh k>n", false, Wrap::Wsh, Thresh(3, vec![pk(0), Swap(bx(pk(1)))])),
+        ("wsh: multi k=0", false, Wrap::Wsh, Multi(0, vec![0, 1])),
+        ("wsh: multi k>n", false, Wrap::Wsh, Multi(3, vec![0, 1])),
+        ("wsh: thresh child not d", false, Wrap::Wsh, Thresh(1, vec![pk(0), Swap(bx(AndV(bx(v(pk(1))), bx(True))))])),
+        ("wsh: or_d left not u (d:v:1 outside tapscript)", false, Wrap::Wsh, OrD(bx(DupIf(bx(v(True)))), bx(pk(0)))),
+        // accepted although insane: judged like everything else
+        ("wsh: repeated key (insane, accepted)", true, Wrap::Wsh, OrD(bx(pk(0)), bx(AndV(bx(v(Check(bx(PkH(0))))), bx(Older(10)))))),
+        ("wsh: mixed lock units (insane, accepted)", true, Wrap::Wsh, AndV(bx(v(pk(0))), bx(AndV(bx(v(After(100))), bx(After(500_000_001)))))),
+        ("wsh: mixed relative lock units (insane, accepted)", true, Wrap::Wsh, AndV(bx(v(pk(0))), bx(AndV(bx(v(Older(10))), bx(Older(4_194_305)))))),
+        ("wsh: sigless branch (insane, accepted)", true, Wrap::Wsh, OrI(bx(pk(0)), bx(Older(10)))),
+    ];
+    let mut n = 0u64;
+    for (class, expect, w, node) in cases {
+        let mk = || desc::build_desc(w, &node, 0);
+        match mk() {
+            None => {
+                out.count(&format!("refused-today corpus: refused: {}", class));
+                if expect { out.count(&format!("observation: refused-today corpus: expected-accepted neighbour is refused: {}", class)); }
+            }
+            Some(_) => {
+                n += 1;
+                out.count(&format!("refused-today corpus: {}: {}", if expect { "accepted neighbour (judged)" } else { "ACCEPTED although refused at design time (judged)" }, class));
+                let full = designated_dassets(&[&node], 3);
+                for a in full.iter().take(2) { for mall in [false, true] { routes_and_judge(out, &mk, a, mall); } }
+            }
+        }
+    }
+    // key-only wrappers and taproot
+    for (class, expect, w, key) in [("wpkh: uncompressed key", false, Wrap::Wpkh, 100u32), ("sh-wpkh: uncompressed key", false, Wrap::ShWpkh, 101), ("pkh: uncompressed key (legal)", true, Wrap::Pkh, 100)] {
+        let mk = || desc::build_desc(w, &ast::Node::True, key);
+        match mk() {
+            None => out.count(&format!("refused-today corpus: refused: {}", class)),
+            Some(_) => {
+                n += 1;
+                out.count(&format!("refused-today corpus: {}: {}", if expect { "accepted neighbour (judged)" } else { "ACCEPTED although refused at design time (judged)" }, class));
+                let mut a = DAssets::default(); a.keys.insert(key % 100);
+                for mall in [false, true] { routes_and_judge(out, &mk, &a, mall); }
+            }
+        }
+    }
+    let tleaf = |i: u32| Check(bx(PkK(200 + i)));
+    for (class, expect, leaves) in [
+        ("tr: multi in a leaf", false, vec![Multi(1, vec![200, 201])]),
+        ("tr: leaf of type V", false, vec![v(tleaf(0))]),
+        ("tr: leaf at depth 128 (limit)", true, { let mut l: Vec<ast::Node> = (0..128).map(|i| tleaf(5 + (i % 2))).collect(); l.push(tleaf(0)); l.reverse(); l }),
+        ("tr: leaf at depth 129 (limit+1)", false, { let mut l: Vec<ast::Node> = (0..129).map(|i| tleaf(5 + (i % 2))).collect(); l.push(tleaf(0)); l.reverse(); l }),
+    ] {
+        // left comb: the FIRST leaf ends up deepest
+        let mk = || desc::build_tr(3, &leaves);
+        match mk() {
+            None => { out.count(&format!("refused-today corpus: refused: {}", class)); if expect { out.count(&format!("observation: refused-today corpus: expected-accepted neighbour is refused: {}", class)); } }
+            Some(_) => {
+                n += 1;
+                out.count(&format!("refused-today corpus: {}: {}", if expect { "accepted neighbour (judged)" } else { "ACCEPTED although refused at design time (judged)" }, class));
+                let mut a = DAssets::default(); a.keys.insert(0);   // only the deepest leaf's key: that leaf is spent
+                for mall in [false, true] { routes_and_judge(out, &mk, &a, mall); }
+            }
+        }
+    }
+    n
+}
+
+/* ------------------------------------------------------------------ raw channel (R3) */
+
+struct OnePreimage(miniscript::bitcoin::hashes::sha256::Hash, [u8; 32]);
+impl Satisfier<PublicKey> for OnePreimage {
+    fn lookup_sha256(&self, h: &miniscript::bitcoin::hashes::sha256::Hash) -> Option<[u8; 32]> { if *h == self.0 { Some(self.1) } else { None } }
+}
+
+/// `util::witness_to_scriptsig` is only reachable through typed satisfier data (DER signatures
+/// >= 9 bytes, 33/65-byte keys, 32-byte preimages, `[]`, `[1]`): elements of 1..4 bytes other than
+/// `[1]` cannot be produced through the public API.  What CAN be chosen freely is the content of
+/// a 32-byte preimage: script-false and number-like ones (all zero, negative zero at either end,
+/// a leading 0x01 / 0x81, all 0xff) go through sh / bare scriptSigs and wsh witnesses here.
+fn raw_preimage_channel(out: &mut Out) {
+    use miniscript::bitcoin::hashes::{sha256, Hash};
+    use std::str::FromStr;
+    let mut pres: Vec<[u8; 32]> = vec![[0u8; 32], [0xff; 32]];
+    for (pos, val) in [(31usize, 0x80u8), (0, 0x80), (0, 0x01), (0, 0x81), (31, 0x01)] { let mut p = [0u8; 32]; p[pos] = val; pres.push(p); }
+    let k0 = ast::full_key(0);
+    let k1 = ast::full_key(1);
+    for p in pres {
+        let h = sha256::Hash::hash(&p);
+        for tmpl in ["sh(and_v(v:pk(K0),sha256(H)))", "wsh(and_v(v:pk(K0),sha256(H)))", "sh(wsh(and_v(v:pk(K0),sha256(H))))",
+                     "sh(or_d(pk(K1),and_v(v:pk(K0),sha256(H))))", "sh(thresh(2,pk(K0),s:pk(K1),a:sha256(H)))"] {
+            let text = tmpl.replace("K0", &k0.to_string()).replace("K1", &k1.to_string()).replace("H", &h.to_string());
+            let d = match Descriptor::<PublicKey>::from_str(&text) { Ok(d) => d, Err(_) => { out.count("raw preimage channel: descriptor refused"); continue; } };
+            let mut a = DAssets::default(); a.keys.insert(0);
+            let sat = desc::tx_sat_for(&d, &a);
+            let hm = OnePreimage(h, p);
+            for mall in [false, true] {
+                let both = (&sat, &hm);
+                let info = format!("{} {} preimage={}", d, if mall { "mall" } else { "nonmall" }, ast::hex(&p));
+                let r = guard(out, "get_satisfaction(raw preimage)", &info, || if mall { d.get_satisfaction_mall(&both).ok() } else { d.get_satisfaction(&both).ok() });
+                match r {
+                    Some(Some((w, ss))) => { out.count("raw preimage channel: spend (judged)"); desc::judge_spend(out, &info, &sat, &ss, &w); }
+                    Some(None) => out.count("observation: raw preimage channel: no spend"),
+                    None => {}
+                }
+            }
+        }
+    }
 }
